@@ -104,7 +104,7 @@ func runC13(c *Ctx) {
 		"waits on the close channel or the ticker, and on the not-hunted/not-closed exit every path to the return passes the restoring request (router pair). StartHunt inserts and starts the loop only when the MAC is not yet hunted, " +
 		"inside one arpMutex critical section; StopHunt deletes under the mutex. Not decided: real-time bounds, overlap of an old and a new loop after StopHunt/StartHunt."
 	r.Rule("send-classified", "every send in ProcessPacket/spoofLoop is truthful or a guarded forgery", 4)
-	r.Rule("loop-structure", "spoofLoop: membership test each iteration under the mutex, stoppable wait, restore on exit", 4)
+	r.Rule("loop-structure", "spoofLoop: membership test each iteration under the mutex, stoppable wait, restore on exit", 5)
 	r.Rule("hunt-admin", "StartHunt idempotent under the mutex; StopHunt deletes under the mutex", 4)
 	r.Rule("api-truthful", "Request/RequestTo/Probe use the host address pair as sender", 3)
 
@@ -145,11 +145,15 @@ func runC13(c *Ctx) {
 				case "AnnounceTo":
 					// forged announcement: host MAC with the router IP
 					class = "forged"
-					okGuard := hasGuard(gs, `^\(arp_spoofer\.Handler\)\.findHuntByIP\(.*\)#1$`)
+					// a positive hunt-list lookup: the scan helper or a comma-ok lookup in the list itself
+					okGuard := hasGuard(gs, `^\(arp_spoofer\.Handler\)\.findHuntByIP\(.*\)#1$`) || hasGuard(gs, `^recv\.huntList\[.*\]#1$`)
 					dstOK := len(args) == 3 && localAlwaysFrom(args[1], func(v ssa.Value) bool {
 						ex, ok := v.(*ssa.Extract)
 						if !ok || ex.Index != 0 {
 							return false
+						}
+						if lk, ok := ex.Tuple.(*ssa.Lookup); ok {
+							return strings.HasSuffix(norm(lk.X), "huntList")
 						}
 						call, ok := ex.Tuple.(*ssa.Call)
 						return ok && strings.HasSuffix(core.CalleeName(call), ".findHuntByIP")
@@ -232,9 +236,36 @@ func runC13(c *Ctx) {
 		l := loops[0]
 		// (a) membership test inside the loop under the mutex
 		found := false
+		// the membership test: a lookup in the hunt list by its own key, or (older form) a scan helper
+		var tests []ssa.Instruction
 		for _, site := range callsIn(loop, nameIs("findHuntByIP")) {
-			ins := site.(ssa.Instruction)
+			tests = append(tests, site.(ssa.Instruction))
+		}
+		core.EachInstr(loop, func(i ssa.Instruction) {
+			if lk, ok := i.(*ssa.Lookup); ok && strings.HasSuffix(norm(lk.X), "huntList") {
+				tests = append(tests, i)
+			}
+		})
+		// the key the list is maintained under (StartHunt's insertion)
+		insKey := ""
+		if start := c.P.Method("handlers/arp_spoofer", "Handler", "StartHunt"); start != nil {
+			core.EachInstr(start, func(i ssa.Instruction) {
+				if mu, ok := i.(*ssa.MapUpdate); ok && strings.HasSuffix(norm(mu.Map), "huntList") {
+					insKey = norm(mu.Key)
+				}
+			})
+		}
+		for _, ins := range tests {
 			if l.Blocks[ins.Block()] {
+				// liveness is decided under the key StartHunt/StopHunt use: a scan by another attribute (the IP) finds a
+				// different target's entry when two MACs share that attribute, and the loop of a stopped target lives on
+				kst := core.Violated
+				kdet := "spoofLoop decides whether its target is still hunted with " + norm(ins.(ssa.Value)) + ", not with a lookup under the hunt list's key " + insKey + ": after StopHunt(mac) the loop keeps running while another entry has the same IP, and the stopped target never gets the restoring packet"
+				if lk, ok := ins.(*ssa.Lookup); ok && insKey != "" && norm(lk.Index) == insKey {
+					kst, kdet = core.Proved, ""
+				}
+				r.Add(core.Obligation{Rule: "loop-structure", Key: "loop-structure membership test uses the hunt list's key", Func: core.FuncName(loop), Pos: c.P.Pos(core.PosOf(ins)), Status: kst,
+					Basis: "lookup huntList[" + insKey + "]", Detail: kdet})
 				found = true
 				st := core.Proved
 				if !fi.MustIn[ins].HasClass("Handler.arpMutex") {
